@@ -284,9 +284,13 @@ def exampleCheckOfVia : String → Option String
   | "schema @ schema.Example" => some "example"
   | _ => none
 
+/-- a literal `L?` says: reached when `L` holds; when `L` fails only on the structural paths that avoid an
+earlier accepting `return` — read pessimistically as `L` -/
 def knownGuard : String → Bool
   | "+examplesValidationDisabled" | "-examplesValidationDisabled"
-  | "+schemaDefaultsValidationDisabled" | "-schemaDefaultsValidationDisabled" => true
+  | "+schemaDefaultsValidationDisabled" | "-schemaDefaultsValidationDisabled"
+  | "+examplesValidationDisabled?" | "-examplesValidationDisabled?"
+  | "+schemaDefaultsValidationDisabled?" | "-schemaDefaultsValidationDisabled?" => true
   | _ => false
 
 open KinModel.Gen in
@@ -336,6 +340,10 @@ def litHolds (o : Opts) : String → Bool
   | "-examplesValidationDisabled" => !o.exDisabled
   | "+schemaDefaultsValidationDisabled" => o.defDisabled
   | "-schemaDefaultsValidationDisabled" => !o.defDisabled
+  | "+examplesValidationDisabled?" => o.exDisabled
+  | "-examplesValidationDisabled?" => !o.exDisabled
+  | "+schemaDefaultsValidationDisabled?" => o.defDisabled
+  | "-schemaDefaultsValidationDisabled?" => !o.defDisabled
   | _ => false
 def guardsHold (o : Opts) (gs : List String) : Bool := gs.all (litHolds o)
 
@@ -345,6 +353,10 @@ def rowsFor (l : List (Kind × String × List String)) (k : Kind) (n : String) :
 
 /-- some row for (kind, name) has all its option guards satisfied -/
 def anyHolds (o : Opts) (gss : List (List String)) : Bool := gss.any (guardsHold o)
+
+/-- under every option set some row for the check has all its guards satisfied (the guards read two flags) -/
+def alwaysHolds (gss : List (List String)) : Bool :=
+  [false, true].all fun e => [false, true].all fun d => anyHolds { exDisabled := e, defDisabled := d } gss
 
 /-- structural guards of edges that the table does not carry (hand-modelled; validated by the
 differential run): the `examples` of a parameter / media type / header are visited only when a schema is given -/
